@@ -7,6 +7,21 @@ HERE = os.path.dirname(os.path.dirname(os.path.abspath(__file__)))
 ALL = ["C%02d" % i for i in range(1, 21)]
 
 CLAIMED = {
+    "C18": dict(
+        category="model_checking",
+        text=("ActionCond.tla contains the reference meaning of a condition (truth value; match set = union/intersection "
+              "of the well-level comparisons that hold, scalar or false sub-conditions contributing no set) and a "
+              "transcription of the implementation's parser and optional-set algebra; TLC checks that they agree on every "
+              "condition with up to 3 comparisons x all value patterns.  ActionTrigger.tla models run count / min wait / "
+              "start / redefinition / restart; TLC checks the three limits exhaustively in small bounds.  Real "
+              "Action::AST, ActionX (also via deck text and parseActionX), Actions::pending, State::add_run/load_rst are "
+              "driven by TLC-enumerated and seeded random conditions and TLC-simulated trigger scripts; every evaluation "
+              "and every step is validated by TLC against the specifications."),
+        design_ref="DESIGN.md section 5, C18",
+        note=("Trusted: TLC; the harness's construction of SummaryState/WListManager/Context; integer summary values. "
+              "The simulator's action loop is represented by the harness loop (msim's loop is outside the anchors)."),
+        technique="TLA+ reference vs transcription checked with TLC + trace validation of real evaluations and trigger steps",
+    ),
     "C07": dict(
         category="model_checking",
         text=("EclFileFormat.tla holds the published on-disk layout and a transcription of the implementation's seek "
